@@ -106,6 +106,47 @@ func runC20(p *Prog, r *Report) {
 		r.Check(encW != nil && bodyW != nil && instrIndex(encW.In) < instrIndex(bodyW.In), R, "header-then-whole-body", pm.Pos(), "tag+length, then the whole body", "the msgpack record is not (tag+length) followed by the whole message body")
 	}
 
+	if pm.OK() {
+		R := "C20.8/one-record-per-message"
+		r.Describe(R, "printMsg produces a record for EVERY received message: the only return that skips the writer's Flush is the one for --format=no (a zero-length message is still an empty line / an empty bin object)")
+		fl := pm.Ev("call", "bufio.(*Writer).Flush")
+		flSet := map[ssa.Instruction]bool{}
+		for _, e := range fl {
+			flSet[e.In] = true
+		}
+		bad := ""
+		seen := map[*ssa.BasicBlock]bool{}
+		var walk func(b *ssa.BasicBlock)
+		walk = func(b *ssa.BasicBlock) {
+			if seen[b] || bad != "" {
+				return
+			}
+			seen[b] = true
+			for _, in := range b.Instrs {
+				if flSet[in] {
+					return
+				}
+				if _, ok := in.(*ssa.Return); ok {
+					g := append(p.GuardStrings(in), edgeAtomsOf(b)...)
+					only := len(g) > 0
+					for _, a := range g {
+						if a != `recv.printFormat == "no"` {
+							only = false
+						}
+					}
+					if !only {
+						bad = p.InstrPos(in) + " under [" + strings.Join(g, "; ") + "]"
+					}
+					return
+				}
+			}
+			for _, s := range b.Succs {
+				walk(s)
+			}
+		}
+		walk(pm.fn.Blocks[0])
+		r.Check(len(fl) >= 1 && bad == "", R, "printMsg", pm.Pos(), "every path other than format \"no\" reaches the Flush", "printMsg returns without writing a record on a condition other than --format=no (the return at "+bad+"): such messages vanish from the output")
+	}
 	R = "C20.1/quoted-ascii"
 	r.Describe(R, "quoted: \\n \\r \\\\ \\\" escapes and \\x%02x for non-printables (every escape starts with a backslash and backslash itself is escaped, so the text decodes back); ascii: non-printables become '.'; raw: body unchanged")
 	if pm.OK() {
